@@ -70,10 +70,20 @@ def tolerances(Bq):
     return RHO, TAU_REL * (1 + scale) / 2
 
 
-def judge(Bq, picks):
-    """(ok, exact): every pick maximal within tolerance (on the norm scale) / exactly maximal among the unranked sensors"""
+def own_norms(Bq):
+    """rational upper bounds of the sensors' own (original) norms"""
+    import math
+    return [F(math.sqrt(float(sum(x * x for x in r)))) * (1 + F(1, 2 ** 40)) for r in Bq]
+
+
+def judge(Bq, picks, own=False):
+    """(ok, exact): every pick maximal within tolerance (on the norm scale) / exactly maximal among the unranked sensors.
+    own=True: the absolute slack is relative to the two sensors' OWN original norms (2^-41 of their sum) instead of the largest norm of the
+    matrix: CCQR and GQR recompute every residual norm from the residual itself and apply the reflectors sensor by sensor, so their error
+    is relative to the sensor at hand - a faint but independent sensor is ranked as reliably as a strong one (LAPACK downdates: global)."""
     diags = exact_follow(Bq, picks)
     rho, tau = tolerances(Bq)
+    s0 = own_norms(Bq) if own else None
     ranked, ok, exact = set(), True, True
     for d, p in zip(diags, picks):
         if p in ranked:
@@ -81,7 +91,8 @@ def judge(Bq, picks):
         for c in range(len(d)):
             if c in ranked:
                 continue
-            if not sqrt_le((1 - rho) ** 2 * d[c], tau, d[p], 0):
+            t_ = tau if not own else min(tau, TAU_REL / 2 * (s0[c] + s0[p]))
+            if not sqrt_le((1 - rho) ** 2 * d[c], t_, d[p], 0):
                 ok = False
             if d[c] > d[p]:
                 exact = False
@@ -102,7 +113,10 @@ def run(chk):
     exprs, meta = [], []
     for it in range(N):
         n, m = gen.shape(rng, nmax, mmax)
-        B, kind = gen.matrix(rng, n, m)
+        u_k = rng.random()
+        if u_k < 0.15:
+            n, m = max(n, 5), max(m, 4)          # room for several faint sensors among the ranked positions
+        B, kind = gen.matrix(rng, n, m, "faintrows" if u_k < 0.15 else ("commonmode" if u_k < 0.22 else None))
         k = min(n, m)
         Bq = fr_mat(B)
         rankB = exact_rank(Bq)
@@ -132,7 +146,17 @@ def run(chk):
         extra = [("GQR/n_sensors", gqr_told), ("GQR/used", gqr_used), ("CCQR/used", ccqr_used)][int(rng.integers(0, 3))]
         for name, mk in forms + [extra]:
             try:
-                runs[name] = [int(i) for i in impl.quiet(mk().fit, Bfit.copy()).get_sensors()]
+                o_ = mk()
+                kept = impl.quiet(o_.fit, Bfit.copy()).get_sensors()
+                runs[name] = [int(i) for i in kept]
+                if hasattr(o_, "get_sensors"):
+                    # the ranking handed out is kept (not copied) while the same optimizer object ranks other data of the same shape
+                    held_ = impl.Held()
+                    held_.hold(name, kept)
+                    impl.quiet(o_.fit, (Bfit[::-1] * 2).copy())
+                    for lab, _c in held_.disturbed():
+                        chk.violation("impl", "ranking-handed-out-overwritten", f"{lab}: the array returned by get_sensors() changed when the same optimizer was fitted "
+                                      f"again on other data", {"B": B.tolist(), "kind": kind})
             except Exception as e:
                 chk.violation("impl", "optimizer-raises:" + name.split("/")[0], f"{name}.fit raised {type(e).__name__}: {e}", {"B": B.tolist(), "kind": kind, "dtype": str(Bfit.dtype)})
         if it % 2 == 0:     # SSPOR with its own basis matrix
@@ -175,7 +199,7 @@ def run(chk):
             if name.startswith("SSPOR"):
                 case["basis_matrix"] = Bm.tolist()
             # ---- oracle: exact Gram-Schmidt on the observed order
-            ok, exact = judge(Bmq, picks)
+            ok, exact = judge(Bmq, picks, own=name.startswith(("CCQR", "GQR")))
             if not ok:
                 chk.violation("impl", "not-greedy:" + name.split(":")[0], f"{name}: ranking {picks} violates the max-residual rule beyond tolerance", case)
             # rank clause.  For float basis matrices produced by SVD / random projections of rank-deficient data the exact rational
